@@ -1,10 +1,10 @@
 (* model driver: mirrors harness/src/main.rs — same case lines in, same observation syntax out.
    Families live in fam_<x>.ml and register themselves in Reg (build.sh links driver.ml last). *)
 exception Line_timeout
-(* a case the extracted model cannot evaluate within MODEL_LINE_TIMEOUT seconds (multi-kilobyte
+(* opt-in (the correspondence runs set it): a case the extracted model cannot evaluate within MODEL_LINE_TIMEOUT seconds (multi-kilobyte
    numeric operands: the model's arithmetic is Coq's binary-positive arithmetic) is reported as
    `skip`, i.e. not compared; the check counts skips in its evidence *)
-let line_limit = try int_of_string (Sys.getenv "MODEL_LINE_TIMEOUT") with _ -> 20
+let line_limit = try int_of_string (Sys.getenv "MODEL_LINE_TIMEOUT") with _ -> 0
 let () =
   Sys.set_signal Sys.sigalrm (Sys.Signal_handle (fun _ -> raise Line_timeout));
   let fam = Sys.argv.(1) in
@@ -16,7 +16,7 @@ let () =
       let line = String.trim (input_line stdin) in
       if line <> "" && line.[0] <> '#' then begin
         let t = Array.of_list (Stdlib.List.filter (fun s -> s <> "") (String.split_on_char ' ' line)) in
-        ignore (Unix.alarm line_limit);
+        if line_limit > 0 then ignore (Unix.alarm line_limit);
         let r = try let r = f t in ignore (Unix.alarm 0); r with
           | Line_timeout -> "skip model-timeout"
           | Stack_overflow -> "crash stack-overflow"
